@@ -523,7 +523,7 @@ func loginImpl(line string) string {
 }
 
 var loginEdits = []string{"la:5", "la:6", "la:7", "dn:0", "dn:2", "dn:1", "dn:16", "dn:256", "dn:32768", "dn:258", "msg:35", "msg:31", "msg:1", "pf:ill", "pf:il", "pf:illl", "pf:lli", "pf:ivl", "pf:ibl", "pf:ilb", "pf:ibb",
-	"pm:i1,k,n16", "pm:i2,k,n16", "pm:i1,kb,n16", "pm:i1,kt,n16", "pm:i1,kw,n16", "pm:i1,kl,n16", "pm:i1,kz,n16", "pm:i1,kn,n16", "pm:i1,kh,n16", "pm:i1,kx,n16", "pm:i1,ky,n16", "pm:i1,kq,n16", "pm:i1,k,n0", "pm:i1,e,n16", "pm:i1,k,n60", "env:2048", "cap:ok", "cap:okz", "cap:zero", "cap:noreq", "cap:nores", "cap:empty", "eed", "ot", "|"}
+	"pm:i1,k,n16", "pm:i2,k,n16", "pm:i1,kb,n16", "pm:i1,kt,n16", "pm:i1,kw,n16", "pm:i1,kl,n16", "pm:i1,kz,n16", "pm:i1,kn,n16", "pm:i1,kh,n16", "pm:i1,kx,n16", "pm:i1,ky,n16", "pm:i1,kq,n16", "pm:i1,k,n0", "pm:i1,e,n16", "pm:i1,k,n60", "env:2048", "env:512", "cap:ok", "cap:okz", "cap:zero", "cap:noreq", "cap:nores", "cap:empty", "eed", "ot", "|"}
 
 func pmFor(pf string, rng *mrand.Rand) string {
 	var vals []string
@@ -613,6 +613,12 @@ func loginGen(tier string, rng *mrand.Rand, emit func(Case)) {
 			withEnv := append([]string{}, base.toks...)
 			withEnv = append(append(withEnv[:len(withEnv)-2:len(withEnv)-2], fmt.Sprintf("env:%d", sz)), base.toks[len(base.toks)-2:]...)
 			emitS("valid-env", base.enc, 8, 12, withEnv)
+			if sz == 2048 || sz == 512 {
+				// the server first confirms the size in force (old value = new value), then announces another one
+				two := append([]string{}, base.toks...)
+				two = append(append(two[:len(two)-2:len(two)-2], "env:512", fmt.Sprintf("env:%d", sz)), base.toks[len(base.toks)-2:]...)
+				emitS("valid-env-confirmed-then-changed", base.enc, 8, 12, two)
+			}
 		}
 		// every packetisation of the replies: the valid scripts (with and without the packet size
 		// announcement) cut every k bytes, k = 1..16 and some larger ones
